@@ -12,7 +12,7 @@ from pathlib import Path
 
 ROOT = Path(__file__).resolve().parent.parent
 RUN = {"C01": ["C01"], "C02": ["C02", "C06"], "C03": ["C03", "C08"], "C04": ["C04", "C01"], "C05": ["C05"], "C06": ["C06"], "C07": ["C07"], "C08": ["C08", "C03"],
-       "C09": ["C09"], "C10": ["C10"], "C11": ["C11", "C12"], "C12": ["C12", "C11"], "C13": ["C13"], "C14": ["C14"], "C15": ["C15"], "C16": ["C16"], "C17": ["C17"], "C18": ["C18"]}
+       "C09": ["C09"], "C10": ["C10"], "C11": ["C11", "C12"], "C12": ["C12", "C11"], "C13": ["C13", "C06"], "C14": ["C14"], "C15": ["C15"], "C16": ["C16"], "C17": ["C17"], "C18": ["C18"]}
 
 
 def sh(*a, **k):
@@ -25,7 +25,9 @@ def main():
     only = sys.argv[1:]
     for d in sorted((ROOT / "seeded").glob("*-agent*")):
         pid = d.name.split("-")[0]
-        if only and pid not in only:
+        if only and not any(o == pid or o in d.name for o in only):
+            continue
+        if only and any(o.startswith("agent") for o in only) and not any(o in d.name for o in only if o.startswith("agent")):
             continue
         patch = d / "patch.diff"
         scratch = Path(tempfile.mkdtemp(prefix="seeded-", dir=os.environ.get("SCRATCH", "/var/tmp")))
